@@ -269,6 +269,32 @@ Definition admissible_input (keep : frame -> bool) (limit : nat) (l : log) (from
        /\ (pre = [] \/ (limit <= count_msgs_upto from evs)%nat).
 Definition keep_all (f : frame) : bool := true.
 
+(* Two of the producers, concretely (budgets in frames; the byte budgets of the code only decide how many frames).
+   scan_tail_messages_runs_v1 + the acceptance test of load_context_compile_input_recent_messages_v1: *)
+Definition lastn_frames (k : nat) (x : log) : log := rev (firstn k (rev x)).
+Definition mr_tail (k : nat) (l : log) : log := lastn_frames k (filter mr_keep l).
+Definition mr_tail_complete (k : nat) (l : log) : bool := (length (filter mr_keep l) <=? k)%nat.
+Definition tail_path (limit k : nat) (l : log) (a : N) : option (log * N) :=
+  let evs := mr_tail k l in
+  match tail_cut evs (head_seq l) a with
+  | Some from =>
+    if mr_tail_complete k l || (limit <=? count_msgs_upto from evs)%nat then Some (evs, from) else None
+  | None => None            (* anchor not in this tail: the caller doubles the budget or falls back *)
+  end.
+
+(* window_recent_messages_v1_from_message_id_messages_runs_v1: backwards from the boundary over the mr sidecar,
+   `if event.seq > from_seq {continue}; push; if message { found += 1; if found >= limit {break} }` *)
+Fixpoint window_rev (from : N) (rl : list frame) (limit found : nat) (acc : list frame) {struct rl} : list frame :=
+  match rl with
+  | [] => acc
+  | f :: r =>
+    if from <? fseq f then window_rev from r limit found acc
+    else if is_msg f then (if (limit <=? S found)%nat then f :: acc else window_rev from r limit (S found) (f :: acc))
+    else window_rev from r limit found (f :: acc)
+  end.
+Definition mr_window (limit : nat) (l : log) (from : N) : log :=
+  window_rev from (rev (filter mr_keep l)) limit 0 [].
+
 (* ------------------------------------------------------------------ specification *)
 Definition lastn {A} (n : nat) (l : list A) : list A := rev (firstn n (rev l)).
 
